@@ -30,7 +30,7 @@ type entryCfg struct {
 	hookMask     int // when non-zero: bit i set = i-th hook variable (sorted by name) is set; overrides hooks
 	enableCaller bool
 	fastCaller   bool
-	skip         int64 // for entry points with a skip parameter
+	skip         int64    // for entry points with a skip parameter
 	sites        []string // consecutive calls from these call sites (default: one call from USER)
 	level        levelInfo
 }
